@@ -387,18 +387,10 @@ def minimize_lbfgsb(
         f0 = checkpoint.fun
 
     # potential update of stop criterion
-    if ftarget is not None:
-        try:
-            _ftarget: Optional[float] = ftarget()  # type: ignore
-        except TypeError:
-            _ftarget = ftarget  # type: ignore
-    else:
-        _ftarget = None
-
-    try:
-        _gtol: float = gtol()  # type: ignore
-    except TypeError:
-        _gtol = gtol  # type: ignore
+    # Note: do not rely on a TypeError to detect a non-callable, that would hide
+    # a TypeError raised by the user's callable itself.
+    _ftarget: Optional[float] = ftarget() if callable(ftarget) else ftarget
+    _gtol: float = gtol() if callable(gtol) else gtol
 
     # Create an internal state instance
     istate = InternalState()
